@@ -705,7 +705,7 @@ func TestVerif_C15_routing(t *testing.T) {
 	vh.Run(t, vh.Spec{Prop: "C15", Unit: "routing", Quick: 400, Thorough: 16000, CostMs: 25,
 		Rule: "one fake host shared by the WAN and LAN IpfsDHT of dual.New, two simulated networks told apart by the protocol list given to the message-sender builder; PRNG networks (WAN 0-55 peers, LAN 0-19, optional overlap; K in {2,3,5,8,20}, alpha in {1,2,3,10}; each table empty in ~1/3 of the cases; 0-100% failing peers per network by dial/request/silence; latencies 5/50/400 ms per network deciding which DHT answers first; value records valid/invalid/mis-keyed/empty and provider records spread over both networks and both local stores); 4-6 operations per case drawn from Provide, PutValue, GetValue, SearchValue, FindPeer, FindProvidersAsync (1/8 cancelled at a PRNG instant), each judged against the WAN/LAN table sizes read at call time and the two wire logs; failed seeds leave the tables so that later operations of a case see other emptiness combinations; non-trivial = at least one judged write and one judged read with RPCs on some network; distinct by (table emptiness, operation, outcome) sequence",
 		Clauses: []string{"write-routed-by-wan-table", "store-rpcs-on-active-network", "write-reaches-active-network", "write-both-empty-lookup-failure", "write-local-on-active",
-			"getvalue-wan-first", "getvalue-lan-fallback", "getvalue-none-combined-error", "getvalue-best-of-source", "searchvalue-sound", "searchvalue-improving",
+			"getvalue-wan-first", "getvalue-lan-fallback", "getvalue-lan-fallback-on-wan-timeout", "getvalue-none-combined-error", "getvalue-best-of-source", "searchvalue-sound", "searchvalue-improving",
 			"findpeer-union", "findpeer-union-exact", "findpeer-combined-error", "findpeer-no-duplicate-addresses", "findprovs-once-each", "findprovs-at-most-count", "findprovs-sound", "findprovs-count0-complete"}},
 		func(c *vh.Case) {
 			cfg := vC15GenCfg(c, false)
@@ -743,6 +743,33 @@ func TestVerif_C15_routing(t *testing.T) {
 							reads++
 						}
 					}
+					n.Settle()
+				}
+				// directed final operation (every fifth case): the LAN DHT answers at once from its local store (its table is
+				// emptied), the WAN DHT - every peer silent from now on - runs into the CALLER's deadline. "GetValue returns
+				// the WAN result when the WAN lookup succeeds and otherwise the LAN result": the LAN value, not the
+				// deadline error.
+				if c.Idx%5 == 2 && n.D.WAN.RoutingTable().Size() > 0 {
+					synctest.Wait()
+					key := fmt.Sprintf("/v/lanonly-%d", c.Idx)
+					val := vDMakeValue(key, 7, time.Time{}, 424242)
+					n.PutLocalRaw(n.LDS, key, val, key)
+					for _, p := range n.D.LAN.RoutingTable().ListPeers() {
+						n.D.LAN.RoutingTable().RemovePeer(p)
+					}
+					for _, id := range n.W.IDs() {
+						n.W.Peer(id).Script = func(_ int, req *pb.Message) vsim.Reply {
+							if req == nil {
+								return vsim.Reply{}
+							}
+							return vsim.Reply{Silent: true}
+						}
+					}
+					res := n.Run(vDOp{Kind: "getvalue", Key: key, Quorum: -1, CancelAt: time.Duration(2+c.R.Intn(5)) * time.Second, Deadline: true})
+					wanRPCs := len(vC15Requests(vDSince(n.W.Log(), res.W0)))
+					c.Check(res.Err == nil && bytes.Equal(res.Val, val), "getvalue-lan-fallback-on-wan-timeout", "LAN holds a valid local record (LAN table empty: it answers at once), the WAN lookup (%d requests, all peers silent) ran into the caller's deadline of %v: GetValue returned %q, %v instead of the LAN value", wanRPCs, res.Op.CancelAt, res.Val, res.Err)
+					vC15LogOp(c, n, nops, res)
+					res.Keep()
 					n.Settle()
 				}
 				if writes > 0 && reads > 0 {
